@@ -159,10 +159,12 @@ PROPS['C28'] = {
                   'crypto/cose check_ocsp_status (dispatch on the policy, which must not be FetchAllowed unless the setting is on).',
     'level_note': 'rule X5 (sync expansion of #[async_generic]) and X6 (cfg resolution) applied; OCSP and time-stamp request gating and "no request anywhere else" (whole-program frame) not covered.',
     'technique': TECH_V + '; effect-guard precondition on the network callee',
-    'parts': [V('verus:remote_gate', 'remote_gate'), V('verus:ocsp_gate', 'ocsp_gate')],
+    'parts': [V('verus:remote_gate', 'remote_gate'), V('verus:ocsp_gate', 'ocsp_gate'), V('verus:ocsp_labels', 'ocsp_labels'),
+              B('native:ocsp_label_selection', 'sdk', [{'name': 'c28_ocsp_label_selection_all_settings', 'tier': 'quick'}], functions=[('sdk/src/store.rs', 'get_manifest_labels_for_ocsp')],
+                bounds='stores with 1..=3 manifests x 3 x 3 settings values')],
     'trusted_base': TB_VERUS + ['Store::fetch_remote_manifest is the only network access reachable from handle_remote_manifest'],
     'rule': 'obligation = one Verus function-level query over real text extracted from /repo on this run',
-    'not_covered': ['OCSP fetch at signing time (Store::get_ocsp_response_ders, gated by builder.certificate_status_fetch)', 'time-stamp authority requests', 'absence of requests in all other code paths (whole-program frame condition)', 'async flavour'],
+    'not_covered': ['Store::get_ocsp_response_ders itself (fetches for every label it is given; the label selection get_manifest_labels_for_ocsp is proved: empty unless builder.certificate_status_fetch is set)', 'time-stamp authority requests', 'absence of requests in all other code paths (whole-program frame condition)', 'async flavour'],
 }
 
 
@@ -233,14 +235,16 @@ PROPS['C35'] = {
     'level_text': 'Narrow and bounded: Kani harness on the real container_from_stream with a stream whose first 2 (quick) / 3 (thorough) reads return an arbitrary '
                   'number >= 1 of the bytes asked for: for every 16-byte prefix and length the sniffing result equals that of a full-read cursor. '
                   'Bounded in the number of short reads only; the prefix bytes are unconstrained.',
-    'level_note': 'Only the format-sniffing read (the anchor "single read" site). I/O fault injection and short reads on every other path: not covered by any contract here.',
+    'level_note': 'Kani part: only the format-sniffing read (the anchor "single read" site). Native part: short reads and a breaking stream at every operation index, for reading six fixtures only; signing and the write side are not covered; one recorded finding.',
     'technique': TECH_K + ' (bounded stream schedules)',
     'parts': [K('kani:sniff_piece_sizes', 'sdk', [H('c35_sniff_independent_2_short_reads', 'bounded', '<= 2 short reads of arbitrary size, then full reads; 16 symbolic bytes'),
                                                   H('c35_sniff_independent_3_short_reads', 'bounded', '<= 3 short reads of arbitrary size, then full reads; 16 symbolic bytes', tier='thorough')],
-                kind='bounded', timeout=1500, functions=[('sdk/src/jumbf_io.rs', 'container_from_stream')])],
+                kind='bounded', timeout=1500, functions=[('sdk/src/jumbf_io.rs', 'container_from_stream')]),
+              B('native:short_reads_and_faults', 'sdk', [{'name': 'c35_short_reads_and_injected_faults', 'tier': 'quick'}], functions=[('sdk/src/reader.rs', 'with_stream')],
+                bounds='reads of 6 fixtures x piece sizes {1,2,3,7,16,1000}; the stream breaking at every operation index (quick: all below 400, then every 13th)')],
     'trusted_base': TB_KANI,
     'rule': 'evaluations = CBMC checks decided in bounded harnesses; every one is an assertion or safety check over symbolic inputs (all counted as non-trivial)',
-    'not_covered': ['BoxReader::read_header and all handler read loops', 'failing streams (I/O errors at the k-th call)', 'write side'],
+    'not_covered': ['signing / embedding (write side) under short writes and faults', 'transient faults (an operation fails once and later ones succeed)', 'formats without a fixture in the native part'],
 }
 
 PROPS['C23'] = {
@@ -365,15 +369,18 @@ PROPS['C01'] = {
 
 PROPS['C29'] = {
     'level': 'exploration',
-    'level_text': 'Bounded stand-in, lexical half only: sanitize_archive_path is compared with the reference normal form (statement: no parent components, absolute paths or backslashes survive; '
+    'level_text': 'Bounded stand-in. File-system half: a ResourceStore with a base path is driven with 1557 identifiers over a tree with symlinks (inside / outside / chained / dangling): nothing outside the root is read, exported, revealed or written. Lexical half: sanitize_archive_path is compared with the reference normal form (statement: no parent components, absolute paths or backslashes survive; '
                   'output = the normal components joined by "/") for EVERY string of length <= 7 (8) over {a . / \\ : %}. Path::components made CBMC use 20 GB on 4 characters; str is outside Verus.',
-    'level_note': 'resolve_within_root (canonicalize, symlinks, the file system) is not covered by any contract here; percent-encoded separators are treated as ordinary characters by design.',
+    'level_note': 'one directory tree only; archive import and Reader::to_folder call sites are not driven; percent-encoded separators are treated as ordinary characters by design.',
     'technique': TECH_B,
     'parts': [B('native:sanitize_archive_path', 'sdk', [T('c29_sanitize_archive_path_all_short_strings')], functions=[('sdk/src/utils/path_utils.rs', 'sanitize_archive_path')],
-                bounds='every string of length 0..=7 (thorough 8) over {a . / \\ : %}')],
+                bounds='every string of length 0..=7 (thorough 8) over {a . / \\ : %}'),
+              B('native:resource_store_symlinks', 'sdk_fileio', [T('c29_resource_store_confined_to_root_with_symlinks')],
+                functions=[('sdk/src/resource_store.rs', 'resolve_within_root'), ('sdk/src/resource_store.rs', 'add'), ('sdk/src/resource_store.rs', 'get'), ('sdk/src/resource_store.rs', 'exists')],
+                bounds='one directory tree with 7 symlinks (inside, outside, chained, dangling, absolute target); 1557 identifiers of 1..=3 components; get / write_stream / exists / path_for_id / add')],
     'trusted_base': ['rustc', 'the reference function c29_reference in kani/path_utils.rs'],
     'rule': 'one evaluation = one input string; non-trivial = strings the reference accepts',
-    'not_covered': ['symbolic links and canonicalisation (resolve_within_root)', 'ResourceStore / archive import / Reader::to_folder call sites', 'Windows prefixes on Windows hosts'],
+    'not_covered': ['archive import / Reader::to_folder call sites', 'races between the check and the use (TOCTOU)', 'Windows prefixes on Windows hosts'],
 }
 
 PROPS['C34'] = {
